@@ -119,3 +119,38 @@ Definition predict_case (c : string * nat * nat * nat * nat * bool) :=
   let '(ext, entry, pre, pre_at, frames, force) := c in predict ext entry pre pre_at frames force.
 Definition predict_open_case (c : string * nat * bool) :=
   let '(ext, pre, force) := c in predict_open_only ext pre force.
+
+(* ------------------------------------------------------------------ modes other than 'w' (Overwrite/Sessions.v)
+   entry 0: md.open(path, m, force_overwrite) with m = 'a' (m = 2) or a mode string that is none of r/w/a (m = 3),
+            then write [100] and close;   entry 1: Trajectory.save_hdf5(path, mode='a', force_overwrite).
+   Result: (raised?, 0 = path unchanged | 1 = old content followed by the new | 2 = created, exactly the new |
+   3 = anything else) *)
+Definition predict_mode (c : string * nat * nat * nat * bool) : option (bool * nat) :=
+  let '(ext, entry, m, pre, force) := c in
+  let prog := if Nat.eqb entry 0
+              then match lookup ext direct with
+                   | Some (SWith k _ _) => Some (SWith k (if Nat.eqb m 2 then MA else MOther) FPass)
+                   | _ => None end
+              else lookup ext append_savers in
+  match prog with
+  | None => None
+  | Some p =>
+      let n := pre_node pre in
+      let F0 : fs := fun q => if path_eqb q (0, 0) then n else None in
+      let E := {| se_force := force; se_frames := 1; se_unk := fun _ => false; se_new := fun _ => [100] |} in
+      let '(o, F1) := srun_ang p E (0, 0) (0, 0) F0 in
+      let n' := F1 (0, 0) in
+      Some (match o with Error => true | Normal => false end,
+            if node_eqb n n' then 0
+            else match n, n' with
+                 | Some (File b), Some (File b') => if list_eqb b' (b ++ [100]) then 1 else 3
+                 | None, Some (File b') => if list_eqb b' [100] then 2 else 3
+                 | _, _ => 3
+                 end)
+  end.
+Definition resm_eqb (a b : option (bool * nat)) : bool :=
+  match a, b with
+  | Some (x, s), Some (y, t) => Bool.eqb x y && Nat.eqb s t
+  | None, None => true
+  | _, _ => false
+  end.
